@@ -139,6 +139,36 @@ def bank(focus=None):
         got, conns = run(ok_stream, fault=fault, cut=cut)
         if not (got.startswith(b"43 ") and well_formed(got)):
             return dict(confirmed=True, input=dict(upstream_fault=fault, after_bytes=cut), observed=dict(downstream=repr(got[:80]), violated=["an upstream fault was not answered with one well-formed 43"]), clause=clause)
+    # several proxy locations (handlers) in one process, the same upstream with different settings, built in either order: each
+    # answers its client within ITS OWN timeout when the upstream stalls
+    import time
+    for timeouts in ((30.0, 0.3), (0.3, 30.0)):
+        tried += 1
+
+        async def go2():
+            up = f"gemini://shared{int(timeouts[0] * 10)}.example:1965"        # an upstream no earlier scenario of this process used
+            hs = [ProxyHandler(up, prefix=f"/loc{i}", timeout=t_) for i, t_ in enumerate(timeouts)]
+            loop = asyncio.get_running_loop()
+
+            async def create_connection(factory, host=None, port=None, **kw):
+                proto = factory()
+                proto.connection_made(UpTransport())
+                return UpTransport(), proto            # connected, then silence
+            loop.create_connection = create_connection
+            short = hs[timeouts.index(0.3)]
+            t0 = time.monotonic()
+            try:
+                resp = await asyncio.wait_for(short.handle(GeminiRequest.from_line(f"gemini://front.example{short.prefix}/page")), 3.0)
+                header, body = GeminiServerProtocol._encode_response(resp)
+                return header + body, time.monotonic() - t0
+            except asyncio.TimeoutError:
+                return b"<no answer within 3 s>", time.monotonic() - t0
+            except Exception as e:  # noqa: BLE001
+                return b"<handler raised " + type(e).__name__.encode() + b">", time.monotonic() - t0
+        got, dt = asyncio.run(go2())
+        if not (got.startswith(b"43 ") and well_formed(got)) or dt > 2.0:
+            return dict(confirmed=True, input=dict(locations=[dict(upstream="the same upstream", prefix=f"/loc{i}", timeout=t_) for i, t_ in enumerate(timeouts)], request="through the location with timeout 0.3", upstream_fault="stall"),
+                        observed=dict(downstream=repr(got[:80]), seconds=round(dt, 2), violated=["a stalled upstream was not answered with 43 within the location's own timeout (another location's settings were applied)"]), clause=clause)
     return dict(confirmed=False, reason="every scripted upstream behaviour is relayed verbatim or answered 43", tried=tried)
 
 
